@@ -45,7 +45,7 @@ CONF = {
                 quick=[("leftrec", {}, 1.0), MIX, SUITE], thorough=[("leftrec", {}, 1.0), ("position", {}, 0.3), MIXT, SUITE]),
     "C08": dict(kinds={"accept", "consumed", "tree", "fn", "position"},
                 quick=[("ws", {"ws_inject": True}, 1.0), MIX, SUITE], thorough=[("ws", {"ws_inject": True}, 1.0), ("include", {"ws_inject": True}, 0.3), MIXT, SUITE]),
-    "C09": dict(kinds={"position", "boundary"},
+    "C09": dict(kinds={"position", "boundary", "stringpos"},
                 quick=[("position", {}, 1.0), MIX, SUITE], thorough=[("position", {}, 1.0), ("ws", {"ws_inject": True}, 0.3), MIXT, SUITE]),
     "C10": dict(kinds={"errpos", "errpos_far", "errspec", "errspec_sentinel"},
                 quick=[("errors", {}, 0.8), ("leftrec", {}, 0.3), MIX, SUITE], thorough=[("errors", {}, 1.0), ("core", {}, 1.0), ("leftrec", {}, 0.5), ("memo", {}, 0.3), MIXT, SUITE]),
@@ -141,11 +141,12 @@ def check_C03(tier, seed):
     out = Outcome("C03", tier, seed)
     runs = [("types", {"assert_types": True, "derive_variants": True, "grammar_scale": 0.5}, 1.0),
             ("keywords", {"assert_types": True, "grammar_scale": 0.3}, 1.0),
-            ("userfn", {"assert_types": True, "grammar_scale": 0.15}, 1.0)]
+            ("userfn", {"assert_types": True, "grammar_scale": 0.15}, 1.0),
+            ("leftrec", {"assert_types": True, "derive_variants": True, "grammar_scale": 0.12}, 1.0)]
     if tier == "thorough":
         runs += [("fields", {"assert_types": True, "grammar_scale": 0.3}, 1.0),
                  ("memo", {"assert_types": True, "grammar_scale": 0.2}, 1.0),
-                 ("leftrec", {"assert_types": True, "grammar_scale": 0.2}, 1.0)]
+                 ("mix", {"assert_types": True, "derive_variants": True, "grammar_scale": 0.2}, 1.0)]
     evaluations = 0
     shapes = set()
     meta = []
